@@ -11,7 +11,7 @@ open Gen
 
 /-- Complete machine state: the Go `CPU` struct (generated) plus what the user-supplied
     `Memory`/`IO` objects and handlers are modelled as. -/
-structure St extends Gen.CPU where
+@[ext] structure St extends Gen.CPU where
   /-- user memory: a byte store (read returns last write) -/
   mem : U16 → U8
   /-- user port device: answer to `IO.In(p)` as a function of the whole bus history so far -/
@@ -23,13 +23,22 @@ inductive Res (α : Type) where
   | ok (a : α) (s : St)
   | panic (why : String)
 
-def M (α : Type) := St → Res α
+@[reducible] def M (α : Type) := St → Res α
 
-@[inline] def M.pure {α} (a : α) : M α := fun s => .ok a s
-@[inline] def M.bind {α β} (m : M α) (f : α → M β) : M β := fun s =>
-  match m s with
+/-- sequencing on results (named so that simp lemmas can talk about it) -/
+@[inline] def Res.bind {α β} (r : Res α) (f : α → St → Res β) : Res β :=
+  match r with
   | .ok a s' => f a s'
   | .panic e => .panic e
+
+@[simp] theorem Res.bind_ok {α β} (a : α) (s : St) (f : α → St → Res β) : (Res.ok a s).bind f = f a s := rfl
+@[simp] theorem Res.bind_panic {α β} (e : String) (f : α → St → Res β) : (Res.panic e : Res α).bind f = .panic e := rfl
+@[simp] theorem Res.bind_ite {α β} (c : Prop) [Decidable c] (x y : Res α) (f : α → St → Res β) :
+    (if c then x else y).bind f = if c then x.bind f else y.bind f := by
+  split <;> rfl
+
+@[inline] def M.pure {α} (a : α) : M α := fun s => .ok a s
+@[inline] def M.bind {α β} (m : M α) (f : α → M β) : M β := fun s => (m s).bind f
 
 instance : Monad M where
   pure := M.pure
@@ -37,11 +46,14 @@ instance : Monad M where
 
 @[simp] theorem pure_run {α} (a : α) (s : St) : (pure a : M α) s = .ok a s := rfl
 @[simp] theorem bind_run {α β} (m : M α) (f : α → M β) (s : St) :
-    (m >>= f) s = match m s with | .ok a s' => f a s' | .panic e => .panic e := rfl
+    (m >>= f) s = (m s).bind f := rfl
 @[simp] theorem map_run {α β} (g : α → β) (m : M α) (s : St) :
-    (g <$> m) s = match m s with | .ok a s' => .ok (g a) s' | .panic e => .panic e := rfl
+    (g <$> m) s = (m s).bind (fun a s' => .ok (g a) s') := rfl
 @[simp] theorem seqRight_run {α β} (m : M α) (n : Unit → M β) (s : St) :
-    (SeqRight.seqRight m n) s = match m s with | .ok _ s' => n () s' | .panic e => .panic e := rfl
+    (SeqRight.seqRight m n) s = (m s).bind (fun _ s' => n () s') := rfl
+@[simp] theorem ite_run {α} (c : Prop) [Decidable c] (m1 m2 : M α) (s : St) :
+    (if c then m1 else m2) s = if c then m1 s else m2 s := by
+  split <;> rfl
 
 /-- a pointer to a piece of the CPU (`&cpu.BC.Hi`, `&cpu.BC`): getter and setter -/
 structure Lens (α : Type) where
